@@ -48,7 +48,7 @@ MC = {
     "C02": dict(quick=[cfgd(RF=1, Addr=addrs(2), MaxW=2, Ops={"read"}), cfgd(MaxW=1, Ops=set())],
                 thorough=[cfgd(MaxW=2, Ops={"read"}), cfgd(RF=3, Addr=addrs(4), MaxW=1, Ops=set())],
                 mutants=[("majorityGE", "AckMajority|InServiceHoldAcked"), ("keepFailedWriters", "FailedDetached|InServiceHoldAcked")]),
-    "C03": dict(quick=[cfgd(RF=1, Addr=addrs(2), MaxW=1, Ops={"seterr", "sync"}), cfgd(MaxW=1, Ops={"seterr"})],
+    "C03": dict(quick=[cfgd(RF=1, Addr=addrs(2), MaxW=1, Ops={"seterr", "sync", "oob"}), cfgd(MaxW=1, Ops={"seterr"})],
                 thorough=[cfgd(MaxW=1, Ops={"seterr", "sync", "snapshot", "snapfail"}),
                           cfgd(RF=3, Addr=addrs(4), MaxW=1, Ops={"seterr"})],
                 mutants=[("skipRoUpdate", "RoFresh|CountMatches|WriteGate"), ("writeIgnoresRO", "WriteGate")]),
@@ -73,7 +73,9 @@ MC = {
 }
 
 PROFILE = {"C02": "mixed", "C03": "membership", "C04": "mixed", "C05": "mixed", "C09": "bootstrap",
-           "C13": "snapshot", "C18": "membership"}
+           "C13": "snapshot", "C18": "membership",
+           "C07": "rebuildrace",    # embedded in the cluster family's C07 check (controller side of a rebuild)
+           "C01": "oob"}            # embedded in the replica family's C01 check (the controller's range check)
 
 IO_EVS = {"Write", "Sync", "Unmap", "Read"}
 MEMBER_RULES = {"Replicas", "NoDup", "ListsAgree", "ReadersAreRW", "WritersAreNonErr", "RWCount", "CountMatches",
@@ -92,6 +94,8 @@ def attribute(f):
         p.add("C18")
         if ev in IO_EVS:
             p.add("C05")
+    if f.get("a", {}).get("oob"):
+        p.add("C01")        # the controller's range check
     if rules & {"ReadOnly", "RoFresh", "WriteGate"}:
         p.add("C03")
     if rules & {"InServiceHoldAcked", "Node.log"}:
@@ -106,7 +110,9 @@ def attribute(f):
             p.add("C04")
     if ev == "Read" and rules & {"Replicas", "Result", "Touched"}:
         p.add("C04")
-    if rules & {"ReadData", "ReadFresh", "ReadersAreRW"}:
+    if ev == "Read" and "Result" in rules:
+        p.add("C05")        # a failing minority surfaced as an I/O error (or the reverse)
+    if rules & {"ReadData", "ReadFresh", "ReadersAreRW", "ServedBy"}:
         p.add("C04")
     if rules & {"Signals", "SignalAfterMajority", "SignalsMax"}:
         p.add("C09")
@@ -116,6 +122,11 @@ def attribute(f):
         p |= {"C02", "C18"}
     if rules & {"Node.state", "Node.mode"}:
         p.add("C18")
+    # the controller's side of a rebuild: what the rebuilt replica holds when it is promoted
+    if ev in ("RebuildCopy", "VerifyRebuild") and rules & {"Node.log", "InServiceHoldAcked", "Node.rev", "Node.snaps", "Result"}:
+        p.add("C07")
+    if rules & {"InServiceHoldAcked", "ReadData", "ReadFresh"} and f.get("after_rebuild"):
+        p.add("C07")
     if "Hang" in rules:
         p |= {"C05", "C18"}
     if "Panic" in rules:
@@ -148,9 +159,75 @@ def context_of(f):
     return ",".join(ctx)
 
 
+DATA_RULES = {"Node.log", "InServiceHoldAcked", "ReadData", "ReadFresh"}
+
+
+def explain_stale_rmw(evs, f):
+    """the recorded (not repaired) defect of C07 on harness L1, dense layout only: 'stale-rmw' iff the
+    failure is purely about data and every acknowledged write an in-service replica lacks (a) was
+    applied while that replica was detached and (b) lies in a 4 KiB block into which a sub-block
+    write went while the replica was attached again but not yet synced (its read-modify-write filled
+    the rest of the block from its own stale chain, and that head block shadows the synced data)"""
+    if not evs[0]["a"].get("dense") or not set(f["rules"]) <= DATA_RULES:
+        return None
+    rec = [e for e in evs if e["seq"] == f["seq"] and not e.get("partial")]
+    if not rec:
+        return "unexplained"
+    rec = rec[0]
+    writes = [e for e in evs if e["ev"] == "Write" and e["res"] == "ok" and e["seq"] < f["seq"]]
+    acked = {e["a"]["w"] for e in writes}
+    reached = {e["a"]["w"]: set(e.get("touched") or []) for e in writes}
+    seqof = {e["a"]["w"]: e["seq"] for e in writes}
+    bad = False
+    for a, mode in rec["ctl"]["replicas"].items():
+        if mode not in ("RW", "WO"):
+            continue
+        have = set(rec["nodes"][a]["log"])
+        if mode == "WO":
+            # before the copy a rebuilding replica legitimately lacks what it missed; the rule that
+            # failed compared it with the specification's expectation, so only judge after a copy
+            if not any(e["ev"] == "RebuildCopy" and e["a"].get("a") == a and e["res"] == "ok" and e["seq"] <= f["seq"]
+                       for e in evs):
+                continue
+        for m in acked - have:
+            detached = a not in reached[m]
+            later = [w for w in acked if w != m and (w - 1) // 8 == (m - 1) // 8 and a in reached[w] and seqof[w] > seqof[m]]
+            if not (detached and later):
+                return "unexplained"
+            bad = True
+    return "stale-rmw" if bad else "unexplained"
+
+
+def ops_upto(evs, seq):
+    """scenario operations that reproduce the recorded events up to record seq"""
+    ops, need_race = [], False
+    for e in evs[1:]:
+        if e["ev"] == "Hang":
+            if e["seq"] <= seq and (e.get("a") or {}).get("opjson"):
+                ops.append(e["a"]["opjson"])
+            continue
+        if e.get("partial"):
+            need_race = need_race or e["seq"] <= seq
+            continue
+        if e["ev"] == "Noop" and any((e.get("a") or {}).get(x) for x in ("race", "addrace", "snaprace")):
+            if e["seq"] <= seq or need_race:
+                ops.append(event_to_op(e))
+            need_race = False
+            continue
+        if e["seq"] <= seq and not (e["ev"] == "ReplicaRestart" and e["a"].get("cause")):
+            ops.append(event_to_op(e))
+    return ops
+
+
 def event_to_op(e):
     a = e.get("a") or {}
     ev = e["ev"]
+    if ev == "Noop" and a.get("race"):
+        return {"ev": "Race", "a": a["race"], "k": a.get("k", 6)}
+    if ev == "Noop" and a.get("snaprace"):
+        return {"ev": "SnapRace", "name": a["snaprace"], "k": a.get("k", 6)}
+    if ev == "Noop" and a.get("addrace"):
+        return {"ev": "AddRace", "a": a["addrace"], "k": a.get("k", 12)}
     m = {"VerifyRebuild": "Verify", "RemoveReplica": "Remove", "AddCheck": "Add", "AddCommit": "AddEnd"}
     op = {"ev": m.get(ev, ev)}
     if ev == "AddCheck" and a.get("gated"):
@@ -162,6 +239,8 @@ def event_to_op(e):
     for k in ("sf", "af", "cf", "name", "mode", "src", "rev"):
         if k in a and a[k]:
             op[k] = a[k]
+    if ev in IO_EVS and a.get("oob"):
+        return {"ev": ev + "OOB", "kind": a["oob"]}
     if ev in IO_EVS:
         op["F"] = a.get("A", [])
     elif ev in ("Add", "Snapshot", "AddCommit"):
@@ -175,11 +254,14 @@ def nontrivial(prop, evs):
     names = [e["ev"] + ":" + e["res"] for e in evs]
     need = {"C02": ("Write:ok", "Write:failed"), "C03": ("Write:failed", "SetMode:ok", "RemoveReplica:ok"),
             "C04": ("Read:ok",), "C05": ("Write:ok", "Read:ok", "MonitorRun:ok"), "C09": ("Start:ok",),
-            "C13": ("Snapshot:ok", "VerifyRebuild:ok"), "C18": ("Add:ok", "RemoveReplica:ok")}[prop]
+            "C13": ("Snapshot:ok", "VerifyRebuild:ok"), "C18": ("Add:ok", "RemoveReplica:ok"),
+            "C07": ("VerifyRebuild:ok",), "C01": ("Write:failed", "Read:failed")}[prop]
     return any(n in need for n in names)
 
 
-def run(prop, tier, seed, replay=None):
+def run(prop, tier, seed, replay=None, embed=False):
+    """embed: called by another family's check (C07): no model checking, no evidence file, no
+    verdict lines -- returns (violations, known, stats)"""
     t0 = time.time()
     quick = tier == "quick"
     build_harness(["ctrldrv"])
@@ -194,7 +276,7 @@ def run(prop, tier, seed, replay=None):
     try:
         mc_states = mc_trans = 0
         mc_runs = []
-        if replay is None and not os.environ.get("VERIF_DEV_SKIP_MC"):
+        if replay is None and not embed and not os.environ.get("VERIF_DEV_SKIP_MC"):
             for c in MC[prop]["quick" if quick else "thorough"]:
                 r = run_tlc_mc("MCController", mc_cfg(c), timeout=1200 if quick else 10800)
                 if not r["ok"]:
@@ -234,16 +316,24 @@ def run(prop, tier, seed, replay=None):
             nproc = min(NCPU * 2, 32)
             per = 2 if quick else 24
             length = 16 if quick else 30
+            if embed:
+                nproc, per = (12, 1) if quick else (24, 8)
+                if prop == "C01":
+                    nproc, per = (6, 1) if quick else (12, 6)
             for i in range(nproc):
                 pdir = os.path.join(work, "p%d" % i)
                 os.makedirs(pdir)
                 out = os.path.join(work, "t%d.ndjson" % i)
                 parts.append(out)
                 rf = [1, 2, 2, 3, 2, 3, 2, 3][i % 8] if quick else [1, 2, 3, 2, 3, 4, 5, 3][i % 8]
+                if embed:
+                    rf = [3, 3, 2, 3][i % 4] if prop == "C07" else [1, 2, 3][i % 3]
                 cmd = [os.path.join(BUILD, "ctrldrv"), "-out", out, "-work", pdir, "-gen", str(per),
                        "-len", str(length), "-seed", str(seed * 1000 + i), "-base", str(i * 1000),
-                       "-profile", PROFILE[prop], "-rf", str(rf), "-worker", str(i + 1)]
-                if i == 0:      # hand-written / counterexample-derived interleavings
+                       "-profile", PROFILE[prop], "-rf", str(rf),
+                       # embedded parts get their own loopback subnets (127.(10+worker).x)
+                       "-worker", str(i + 1 + ({"C01": 40, "C07": 60}.get(prop, 0) if embed else 0))]
+                if i == 0 and not embed:      # hand-written / counterexample-derived interleavings
                     cmd += ["-in", os.path.join(VERIF, "scenarios", "controller_directed.ndjson")]
                 cmds.append(cmd)
         res = run_parallel(cmds, timeout=900 if quick else 7200)
@@ -279,20 +369,30 @@ def run(prop, tier, seed, replay=None):
             records += result["records"]
             traces += result["traces"]
 
-        violations, known, others = [], [], []
+        violations, known, others, unexplained = [], [], [], []
         for f_ in failed:
             if "SpecNotEnabled" in f_["rules"]:
-                raise HarnessError("specification has no step for record %s" % json.dumps(f_)[:3000])
+                # the specification cannot take the recorded step at all: inconclusive for this
+                # execution (exit 2 at the end unless another execution shows a violation)
+                unexplained.append(f_)
+                continue
+            f_["after_rebuild"] = any(e["ev"] == "VerifyRebuild" and e["res"] == "ok" and e["seq"] < f_["seq"]
+                                      for e in by_t[f_["t"]])
             props = attribute(f_)
             sig = dict(rule=sorted(f_["rules"]), site=f_["ev"], context=context_of(f_))
+            x = explain_stale_rmw(by_t[f_["t"]], f_)
+            if x:
+                sig["context"] = x
+                if x == "stale-rmw":
+                    props.add("C07")
             if prop not in props:
                 others.append(dict(t=f_["t"], seq=f_["seq"], sig=sig, properties=sorted(props)))
                 continue
             evs = by_t[f_["t"]]
             init = evs[0]
-            scenario = dict(id=f_["t"], rf=init["a"]["rf"], n=init["a"]["n"], src="replay",
-                            ops=[event_to_op(e) for e in evs[1:] if e["seq"] <= f_["seq"]
-                                 and not (e["ev"] == "ReplicaRestart" and e["a"].get("cause"))])
+            scenario = dict(id=f_["t"], rf=init["a"]["rf"], n=init["a"]["n"], src="replay", layer="L1",
+                            dense=bool(init["a"].get("dense")),
+                            ops=ops_upto(evs, f_["seq"]))
             k = match_known(prop, sig)
             rec = dict(property=prop, signature=sig, failed_record=f_, scenario=scenario)
             if k:
@@ -301,9 +401,18 @@ def run(prop, tier, seed, replay=None):
                 path = save_replay(prop, "%s-%s" % (tier, fingerprint(scenario)), rec)
                 violations.append((path, rec))
 
+        if embed:
+            if unexplained and not violations:
+                raise HarnessError("specification has no step for %d record(s), first: %s"
+                                   % (len(unexplained), json.dumps(unexplained[0])[:3000]))
+            promos = sum(1 for evs in by_t.values() for e in evs if e["ev"] == "VerifyRebuild" and e["res"] == "ok")
+            races = sum(1 for evs in by_t.values() for e in evs if e["ev"] == "Noop" and (e.get("a") or {}).get("addrace"))
+            oob = sum(1 for evs in by_t.values() for e in evs if (e.get("a") or {}).get("oob"))
+            return violations, known, dict(executions=traces, records=records, promotions=promos, adds_under_writes=races,
+                                           out_of_range_ios=oob, other_property_failures=len(others))
         fps, nontriv, samples, evcount = set(), set(), [], {}
         for t, evs in by_t.items():
-            ops = [event_to_op(e) for e in evs[1:]]
+            ops = ops_upto(evs, 1 << 60)
             fp = fingerprint(ops)
             fps.add(fp)
             if nontrivial(prop, evs):
@@ -333,6 +442,9 @@ def run(prop, tier, seed, replay=None):
             print("  rule=%s site=%s context=%s" % (",".join(s["rule"]), s["site"], s["context"]))
         log("[%s] %s: %d executions, %d records, %d violations, %d known, %d other-property failures, %.0fs" % (
             prop, tier, traces, records, len(violations), len(known), len(others), time.time() - t0))
+        if unexplained and not violations:
+            raise HarnessError("specification has no step for %d record(s), first: %s"
+                               % (len(unexplained), json.dumps(unexplained[0])[:3000]))
         return 1 if violations else 0
     finally:
         shutil.rmtree(work, ignore_errors=True)
